@@ -115,7 +115,9 @@ class PF:
             sig = ", ".join(vs[:-1]) + f", {self.defaulted}=torch.full((1, 1), 7.25)"
         else:
             sig = ", ".join(vs)
-        src = f"def _f({sig}):\n    return torch.column_stack([{', '.join(comps)}])\n"
+        # the components may have different numbers of rows (a variable fixed by an evaluation arrives as ONE row next to
+        # the N rows of the others): broadcast them, as a user's function written with tensor arithmetic would
+        src = f"def _f({sig}):\n    return torch.column_stack(torch.broadcast_tensors({', '.join(comps)}))\n"
         ns = {"torch": torch}
         exec(src, ns)
         f = ns["_f"]
@@ -287,7 +289,7 @@ class Gen:
             a = dy(rng, -spread, spread, 4)
             if a != 0:
                 t = ("+", c(base), ("*", c(a), v(p)))
-                if self.p_default and len(self.params) >= 2 and rng.random() < 0.5:
+                if (self.p_default or getattr(self, "p_two", False)) and len(self.params) >= 2 and rng.random() < 0.5:
                     # a second parameter in the same function (so that one of them can be declared with a default)
                     p2 = rng.choice([x for x in self.params if x != p])
                     a2 = dy(rng, -spread, spread, 4)
